@@ -263,14 +263,26 @@ def check(run: lib.Run, audit: dict) -> int:
     run.assumptions = ["single policies carry an explicit algorithm (C03's quantifier); the default-algorithm divergence is C17/F1"]
     if not audit["ok"]:
         raise lib.CheckError(f"Lean build/audit failed at {audit['stage']}: {audit.get('log') or audit.get('forbidden') or audit.get('bad_axioms')}")
-    run_cases(run, audit, scale=run.boost)
+    # the compiler's helper functions as they are written NOW, translated into Lean, are proved equal to the model's (per-run obligation)
+    tr = audit["facts"].get("translated_source")
+    ok_tr, detail_tr = lib.run_obligation("C03_translated")
+    run.obligation("C03_translated: Generated.Src.{_actions,_resource_types,_has_id,_has_attrs,_type_matches,_categorize,match_actions,"
+                   "_is_applicable} = the model's functions, for every input", ok_tr,
+                   "discharged" if ok_tr else (str(tr.get("extraction_failed")) if isinstance(tr, dict) and "extraction_failed" in tr else detail_tr))
+    run_cases(run, audit, scale=run.boost * (1 if ok_tr else 2))
     overlap_check(run, (120 if run.tier == "quick" else 1500) * run.boost)
     violations = []
-    if run.disagreements and not run.spec_failures:
+    if (run.disagreements or not ok_tr) and not run.spec_failures:
         run_cases(run, audit, scale=4)
     if run.spec_failures:
         path = run.write_replay("spec", {"what": "C03 violated on the real engine", "case": run.spec_failures[0], "count": len(run.spec_failures)})
         violations.append((path, True))
+    elif not ok_tr:
+        path = run.write_replay("obligation", {"what": "per-run obligation Rbacx/Run/C03_translated.lean no longer checks: the translated source of the "
+                                               "compiler's helper functions (or match_actions / _is_applicable) is not proved equal to the model functions "
+                                               "that theorems Rbacx.categorize_eq_tier / Rbacx.C03.* are about; the widened search found no failing input",
+                                               "translation": tr, "lean": detail_tr[-1500:], "first_disagreement": run.disagreements[:1]})
+        violations.append((path, False))
     elif run.disagreements:
         path = run.write_replay("correspondence", {"what": "model Rbacx.compiledDecide/guardEval and the engine disagree on the decision; theorems Rbacx.C03.* no "
                                                    "longer speak about this code", "first": run.disagreements[0], "count": len(run.disagreements)})
